@@ -607,6 +607,13 @@ class CallGraph:
                             and tgt.value.id == selfname
                         ):
                             out.append((m, self.X.at(m, val)))
+                        elif isinstance(tgt, (ast.Tuple, ast.List)):
+                            # `self.a, self.b = x, y`
+                            from .terms import _project
+
+                            for i, e in enumerate(tgt.elts):
+                                if isinstance(e, ast.Attribute) and e.attr == name and isinstance(e.value, ast.Name) and e.value.id == selfname:
+                                    out.append((m, _project(self.X.at(m, val), (i,))))
         return out
 
     def callbacks_of_call(self, f: Func, call: ast.Call) -> list[Func]:
